@@ -28,6 +28,10 @@ fn main() {
         let k = EcdsaSigningKey::generate_pkcs8(Algorithm::ECDSAP256SHA256).unwrap();
         write(dir, &format!("p256_{i}.pk8"), k.secret_pkcs8_der());
     }
+    for i in 0..2 {
+        let k = EcdsaSigningKey::generate_pkcs8(Algorithm::ECDSAP384SHA384).unwrap();
+        write(dir, &format!("p384_{i}.pk8"), k.secret_pkcs8_der());
+    }
     let rsa = std::fs::read("/repo/tests/integration-tests/tests/rsa-2048.pk8").unwrap();
     write(dir, "rsa2048.pk8", &rsa);
     // three Ed25519 keys whose DNSKEY (flags 256) key tags are identical
